@@ -38,6 +38,30 @@ pub fn gen_history_spec(rng: &mut Prng, prop: &str, with_jitter: bool, max_ops: 
         }
         spec.ops = ops;
         spec.clock = Some(gen_plain_clock(rng, 600));
+        if rng.chance(1, 8) {
+            // the first collected value is crafted (zero half / zero): see craft.rs
+            let r = rng.range(1, 3) as usize;
+            let mask = *rng.pick(&[crate::craft::MASK_ALL, crate::craft::MASK_HI, crate::craft::MASK_LO]);
+            if let Some(d) = crate::craft::solve_deltas(rng, r + 1, mask) {
+                let mut readings = crate::craft::crafted_prefix(rng, &d);
+                let last = *readings.last().unwrap();
+                let tail = spec.clock.take().unwrap();
+                let first = tail.readings.first().copied().unwrap_or(0);
+                readings.extend(tail.readings.iter().map(|x| last.wrapping_add(x.wrapping_sub(first)).wrapping_add(131)));
+                spec.clock = Some(crate::seams::clock::ClockSpec { readings, tail_key: tail.tail_key, fork_skews: vec![] });
+                spec.rounds = Some(r as u8);
+                spec.pre = 0;
+                let first_op = match rng.below(5) {
+                    0 => Op::U32,
+                    1 => Op::U64,
+                    2 => Op::Fill(8),
+                    3 => Op::Fill(16),
+                    _ => Op::Fill(rng.range(1, 24) as u32),
+                };
+                spec.ops.insert(0, first_op);
+                spec.variant = "history_crafted_value".into();
+            }
+        }
     } else {
         let kind = pick_det_kind(rng);
         spec.kind = Some(kind);
